@@ -7,6 +7,7 @@ class C12(core.Prop):
     drivers = [timing.DRIVER]
     sizes = {"quick": 1500, "thorough": 60000}
     max_workers = 6
+    ready = True
     technique = ("property-based testing (Hypothesis): activities whose completion date has a closed form, timed waits whose deadline is placed "
                  "just before / exactly at / just after that date; every outcome and every date compared exactly with the statement")
     rule = ("1-3 activities (exec, exec started by its first wait, disk I/O, mailbox communication between two hosts started eagerly or by the "
@@ -22,6 +23,7 @@ class C12(core.Prop):
     assumptions = ["closed forms hold on the sharing-free platform (FATPIPE links, 16 cores, CM02 without cross-traffic / TCP gamma); they are themselves "
                    "asserted (completion-date-differs-from-closed-form)",
                    "a deadline equal to the date at which ANOTHER waiter's wait_for_or_cancel cancels the activity: both outcomes accepted",
+                   "1 program in 6 runs with cpu/optim:Full + network/optim:Full (the other update algorithm of the models): same exact dates",
                    "wait_any_for on a set containing a cancelled activity, and waits that outlive the creator of the activity, are not asserted",
                    ]
 
